@@ -205,6 +205,9 @@ def path_conditions(node, kill_names=None, extra_kill_calls=(), check_kills=True
             break
         child = p
         p = getattr(p, '_parent', None)
+    if func is not None:
+        for c in conds:
+            c.test = _expand_test(c.test, func, c.origin)
     if func is None or not check_kills:
         return conds
     # kill analysis
@@ -223,6 +226,36 @@ def path_conditions(node, kill_names=None, extra_kill_calls=(), check_kills=True
         if not killed:
             kept.append(c)
     return kept
+
+
+def _expand_test(test, func, origin):
+    """A test that is a local name bound exactly once (a hoisted condition) stands for the bound expression."""
+    neg = False
+    inner = test
+    if isinstance(inner, ast.UnaryOp) and isinstance(inner.op, ast.Not) and isinstance(inner.operand, ast.Name):
+        neg, inner = True, inner.operand
+    if not isinstance(inner, ast.Name):
+        return test
+    binds = [n for n in ast.walk(func) if isinstance(n, ast.Name) and isinstance(n.ctx, ast.Store) and n.id == inner.id]
+    if len(binds) != 1:
+        return test
+    st = stmt_of(binds[0])
+    if not (isinstance(st, ast.Assign) and len(st.targets) == 1 and st.targets[0] is binds[0]):
+        return test
+    if not isinstance(st.value, (ast.Compare, ast.BoolOp, ast.UnaryOp, ast.Call)):
+        return test
+    if pos(st) > pos(origin):
+        return test
+    # the operands of the bound expression must not be rebound between the binding and the test
+    names = names_in(st.value)
+    for k in _killers(func, names):
+        if end_pos(st) <= pos(k) < pos(origin):
+            return test
+    value = st.value
+    if neg:
+        value = ast.UnaryOp(op=ast.Not(), operand=value)
+        ast.copy_location(value, test)
+    return value
 
 
 def exits(stmts):
@@ -379,8 +412,9 @@ class Deps:
                   returns a value; guards that only raise are not selectors)
     """
 
-    def __init__(self, func):
+    def __init__(self, func, through_stores=True):
         self.func = func
+        self.through_stores = through_stores
         self.data = {}
         params = [a.arg for a in func.args.posonlyargs + func.args.args + func.args.kwonlyargs]
         if func.args.vararg:
@@ -424,9 +458,9 @@ class Deps:
 
     def _bind(self, target, src):
         for t in ast.walk(target):
-            if isinstance(t, ast.Name):
+            if isinstance(t, ast.Name) and isinstance(t.ctx, (ast.Store, ast.Del)):
                 self.data.setdefault(t.id, set()).update(src)
-            elif isinstance(t, (ast.Attribute, ast.Subscript)):
+            elif isinstance(t, (ast.Attribute, ast.Subscript)) and self.through_stores:
                 # store into an object: the base object now depends on src
                 base = t
                 while isinstance(base, (ast.Attribute, ast.Subscript)):
